@@ -286,5 +286,9 @@ func UnknownAlphabet(md protoreflect.MessageDescriptor, lv Level) [][]byte {
 	g2 = protowire.AppendFixed64(protowire.AppendTag(g2, 4, protowire.Fixed64Type), 9)
 	g2 = protowire.AppendTag(g2, b, protowire.EndGroupType)
 	out = append(out, g2)
+	// two records, the higher field number first (arrival order need not be field-number order)
+	desc := protowire.AppendBytes(protowire.AppendTag(nil, hi, protowire.BytesType), []byte("hi"))
+	desc = protowire.AppendVarint(protowire.AppendTag(desc, b, protowire.VarintType), 7)
+	out = append(out, desc)
 	return out
 }
